@@ -118,7 +118,33 @@ def axis(inp):
     return close(got, want), "frequencies(%s) NFFT=%d: got %s expected %s" % (sides, N, got.tolist(), want.tolist())
 
 
-NATIVE = {"tool": tool, "convert": convert, "axis": axis}
+def refuse(inp):
+    """complex data: asking for 'onesided' is refused and leaves the object alone; if it is served, going back must restore the
+    original values exactly (it cannot: the one-sided vector is shorter)"""
+    src, setter = inp.get("src", "twosided"), bool(inp.get("setter"))
+    for N in (int(inp.get("NFFT", 8)), 8, 9):
+        if N < 3:
+            continue
+        psd = np.arange(1, N + 1, dtype=float) ** 2
+        s = _mk_spectrum(N, src, psd, "complex")
+        try:
+            if setter:
+                s.sides = "onesided"
+                got = s._Spectrum__psd
+            else:
+                got = s.get_converted_psd("onesided")
+        except (AssertionError, ValueError, Exception) as e:     # refused
+            same = s._Spectrum__sides == src and close(s._Spectrum__psd, psd)
+            if not same:
+                return False, "NFFT=%d %s->onesided refused (%s) but the object was modified" % (N, src, type(e).__name__)
+            continue
+        got = np.asarray(got)
+        return False, "NFFT=%d complex data, %s->onesided was served: %s (power %.6g) from %s (power %.6g); %d values cannot restore %d" % (
+            N, src, got.tolist(), float(np.sum(got)), psd.tolist(), float(np.sum(psd)), len(got), len(psd))
+    return True, "complex data: 'onesided' requests are refused and the object is left unchanged"
+
+
+NATIVE = {"tool": tool, "convert": convert, "axis": axis, "refuse": refuse}
 
 
 def _s_tool(rng, hints):
@@ -148,4 +174,4 @@ def _s_axis(rng, hints):
     return d
 
 
-SEARCH = {"tool": _s_tool, "convert": _s_convert, "axis": _s_axis}
+SEARCH = {"tool": _s_tool, "convert": _s_convert, "axis": _s_axis, "refuse": (lambda rng, h: dict(h, NFFT=rng.choice([4, 5, 8, 9, 16])))}
